@@ -376,18 +376,43 @@ func extractGrpcBroker(p *pkgs, f *facts) {
 	}
 	f.lean = append(f.lean, fmt.Sprintf("def grpcDial : GrpcBroker.DialParams := ⟨%s, %s, %s, %s⟩", leanBool(optsFresh), leanBool(waitsUnlocked), leanBool(acceptLeaves), leanBool(failsFast)))
 	f.set("grpcDial", map[string]interface{}{"optsFresh": optsFresh, "waitsUnlocked": waitsUnlocked, "acceptLeavesDialState": acceptLeaves, "dialFailsFast": failsFast})
-	// GRPCServerMuxer.Accept: the hand-off `acceptCh <- acceptResult{…}` is a plain send statement (not a select arm)
-	handoffBlocks := false
+	// GRPCServerMuxer.Accept: the hand-off `acceptCh <- acceptResult{…}` waits for the listener: it is a plain send
+	// statement, or the send arm of a select whose only other arm receives from the listener's done channel (no default, no
+	// timer).  releasedOnClose: it is the second form, that channel was read from m.<D>[id] in the same critical section as
+	// acceptCh, and Listener stores its doneCh parameter — the one it builds the listener with — under m.<D>[id]
+	handoffBlocks, releasedOnClose := false, false
 	if acc := p.fn("GRPCServerMuxer", "Accept"); acc != nil {
 		plain, inSelect := 0, 0
+		doneVar := ""
 		ast.Inspect(acc.Body, func(n ast.Node) bool {
 			switch x := n.(type) {
 			case *ast.SelectStmt:
+				sends, others, okOther := 0, 0, ""
 				for _, c := range x.Body.List {
-					if cc := c.(*ast.CommClause); cc.Comm != nil {
-						if ss, ok := cc.Comm.(*ast.SendStmt); ok && exprString(ss.Chan) == "acceptCh" {
-							inSelect++
+					cc := c.(*ast.CommClause)
+					if cc.Comm == nil {
+						others += 2 // a default arm
+						continue
+					}
+					if ss, ok := cc.Comm.(*ast.SendStmt); ok && exprString(ss.Chan) == "acceptCh" {
+						sends++
+						continue
+					}
+					others++
+					if es, ok := cc.Comm.(*ast.ExprStmt); ok {
+						if ue, ok := es.X.(*ast.UnaryExpr); ok && ue.Op == token.ARROW {
+							if id, ok := ue.X.(*ast.Ident); ok {
+								okOther = id.Name
+							}
 						}
+					}
+				}
+				if sends > 0 {
+					inSelect += sends
+					if sends == 1 && others == 1 && okOther != "" {
+						doneVar = okOther
+					} else {
+						doneVar = "?"
 					}
 				}
 			case *ast.SendStmt:
@@ -398,10 +423,51 @@ func extractGrpcBroker(p *pkgs, f *facts) {
 			return true
 		})
 		// a send inside a select arm is visited twice (as the arm and as a SendStmt): discount
-		handoffBlocks = plain-inSelect == 1 && inSelect == 0
+		switch {
+		case plain-inSelect == 1 && inSelect == 0:
+			handoffBlocks = true
+		case plain-inSelect == 0 && inSelect == 1 && doneVar != "" && doneVar != "?":
+			handoffBlocks = true
+			// where doneVar comes from, and what Listener stores there
+			field := ""
+			ast.Inspect(acc.Body, func(n ast.Node) bool {
+				if as, ok := n.(*ast.AssignStmt); ok && len(as.Lhs) >= 1 && len(as.Rhs) == 1 && exprString(as.Lhs[0]) == doneVar {
+					if ix, ok := as.Rhs[0].(*ast.IndexExpr); ok && exprString(ix.Index) == "id" && strings.HasPrefix(exprString(ix.X), "m.") {
+						field = exprString(ix.X)
+					} else {
+						field = "?"
+					}
+				}
+				return true
+			})
+			if lf := p.fn("GRPCServerMuxer", "Listener"); lf != nil && field != "" && field != "?" && lf.Type.Params != nil && len(lf.Type.Params.List) == 2 && len(lf.Type.Params.List[1].Names) == 1 {
+				param := lf.Type.Params.List[1].Names[0].Name
+				stores, builds := 0, false
+				ast.Inspect(lf.Body, func(n ast.Node) bool {
+					switch v := n.(type) {
+					case *ast.AssignStmt:
+						if len(v.Lhs) == 1 && len(v.Rhs) == 1 && exprString(v.Lhs[0]) == field+"[id]" {
+							if exprString(v.Rhs[0]) == param {
+								stores++
+							} else {
+								stores += 2
+							}
+						}
+					case *ast.CallExpr:
+						if exprString(v.Fun) == "newBlockedServerListener" && len(v.Args) == 2 && exprString(v.Args[1]) == param {
+							builds = true
+						}
+					}
+					return true
+				})
+				releasedOnClose = stores == 1 && builds && writesTo(lf.Body, param) == 0
+			}
+		}
 	} else {
 		f.miss = append(f.miss, "GRPCServerMuxer.Accept")
 	}
+	f.lean = append(f.lean, fmt.Sprintf("def grpcMuxHandoff : GrpcMux.HandoffParams := ⟨%s⟩", leanBool(releasedOnClose)))
+	f.set("grpcMuxHandoff", map[string]interface{}{"handoffBlocks": handoffBlocks, "releasedOnClose": releasedOnClose})
 	// knocksExpire: in Run's knock branch (`msg.Knock != nil && … && !msg.Knock.Ack`) a goroutine `go m.<E>(p, msg)` is
 	// started whose method E waits on a timer SHORTER than the dialler's wait for the ack (the time.After arm of the select
 	// in `knock`) and then receives from `p.ch`
